@@ -89,7 +89,8 @@ CHECKS = {
             'against a reference model of port namespaces',
             'Every InputPort attribute combination and every nested-namespace attribute combination (required, '
             'valid_type, default plain/callable - also on a namespace itself -, validator, dynamic, populate_defaults; nesting depth 3) is built as a '
-            'real spec and every nested input dictionary over a small value domain is given to the constructor; whether '
+            'real spec and every nested input dictionary over a small value domain (with falsy values, the empty tuple, '
+            'non-mappings where a namespace is declared, and once more with the mappings of declared namespaces immutable) is given to the constructor; whether '
             'it raises, the parsed inputs, raw_inputs, read-only-ness and the caller dictionary are compared with '
             'pv/refports.py; the first accepted inputs of every spec are constructed again at the end and must parse the same.',
             'Trusts the reference model (written from the statement and the port docstrings); cases the statement does '
@@ -143,7 +144,7 @@ CHECKS = {
             'state-entry boundaries is taken as crash points: Bundle -> pickle (thorough: deepcopy, yaml) -> the running '
             'instance is abandoned by an exception out of the ENTERED callback -> unbundle on a fresh loop -> continue; '
             'executed steps (persisted trace and cross-instance log), outputs, ctx, final state and result must equal the '
-            'uninterrupted run.',
+            'uninterrupted run; every single boundary is also restored while another loop is the current one.',
             'Steps depend only on persisted state; checkpoints at state entry and right after construction; bounds M and '
             'families as reported in the evidence.', 'DESIGN.md 3 C08'),
     'C16': (SCHED, SCHED_TECH + '; twin executions at quiescent delivery points; exhaustive broadcast-fault enumeration',
@@ -151,7 +152,7 @@ CHECKS = {
             'pause/play/kill/status messages and their broadcast variants (with and without a message text) at every placement between loop callbacks: each '
             'delivered message must become exactly one call of the matching control method with the matching arguments, the '
             'reply must end with what that call returned, status replies equal what the process reported, every transition '
-            'is announced once, in order, by the pid, and a terminated process is unroutable. With choice points only at '
+            'is announced once, in order, by the pid, and a terminated process is unroutable, also after it was recreated from a checkpoint. With choice points only at '
             'quiescence every execution is repeated making the equivalent direct calls and all observations must be equal. '
             'For every transition index and each tolerated exception type the failing broadcast must not disturb the run.',
             'The communicator thread is modelled by loop callbacks landing at arbitrary queue positions; a real broker and '
